@@ -126,7 +126,9 @@ def rebuild(d):
     if tag[0] == "none":
         return None
     if tag[0] == "nt":
-        return {"Point": Point, "Single": Single}[tag[1]](*new)
+        from ..model.leaftypes import NodeArr
+
+        return {"Point": Point, "Single": Single, "NodeArr": NodeArr}[tag[1]](*new)
     if tag[0] == "tuple":
         return tuple(new)
     if tag[0] == "list":
